@@ -15,6 +15,13 @@ CHECKS = {
          "plus direct conformance of scMinimal on a boundary-dense set; all verdicts decided by TLC with BigNat comparison against L"),
  "C05": ("4 C05", "R1: ZIP-215 predicate vs pipeline, monotonicity Accept(default)=>Accept(zip) and 'differ only on small order' as TLC invariants; "
          "R2/R3: full 14x14 small-order product, mixed small/honest cases, S boundaries, non-canonical encodings, all variants, single and batch, each verdict validated by TLC"),
+ "C06": ("4 C06", "R1: exhaustive TLC model check of the VerifyBatch state machine (MinBatch=2, MaxBatch=3, 11 entry kinds, all sequences up to length 4 resp. 6, both modes, entropy failure "
+         "at any chunk): per-entry result = single verification, summary = conjunction, indices in range, fallback justified; R2: TLC-generated batch matrix (sizes x chunk positions x 20 badness kinds x "
+         "options); R3: every real call replayed by TLC through the same state machine with the real constants, binding the hook events recorded at the code's linearization points, the result vector "
+         "and the real single verifier; chunk equation predicted exactly from the logged randomisers"),
+ "C17": ("4 C17", "R1: exhaustive TLC model check of the Bos-Coster heap algorithm (2-bit limbs, formal points): sum preserved at every step, truncated comparisons exact, heap order, result exact unless "
+         "flagged design-inexact; R3: every iteration of the real multiScalarmultVartime (heap hook) replayed by TLC on the real 253-bit scalars, result compared with the exact sum; "
+         "all-valid batches of all sizes must show Equation(1) and no Fallback event in every chunk (hook trace validated through Batch.tla)"),
  "C09": ("4 C09", "R1: SmallOrder(P) <=> k=0 in Z_L x Z_8 drives the pipeline; R2/R3: the 14 torsion encodings (positive) and [k]B+T_t for all t, non-canonical y+p, small k (negative) "
          "as key and as R through single/batch verification and directly through isSmallOrderVartime, validated by TLC"),
 }
